@@ -2218,9 +2218,12 @@ func (s *Store) Join(jr *proto.JoinRequest) error {
 		// If a node already exists with either the joining node's ID or address,
 		// that node may need to be removed from the config first.
 		if srv.ID == raft.ServerID(id) || srv.Address == raft.ServerAddress(addr) {
-			// However, if *both* the ID and the address are the same, then no
-			// join is actually needed.
-			if srv.Address == raft.ServerAddress(addr) && srv.ID == raft.ServerID(id) {
+			// However, if *both* the ID and the address are the same, and the node
+			// already has the role it is asking for, then no join is actually needed.
+			// A changed role needs the remove-then-add below, since Raft will not
+			// demote a voter in place.
+			if srv.Address == raft.ServerAddress(addr) && srv.ID == raft.ServerID(id) &&
+				(srv.Suffrage == raft.Voter) == voter {
 				stats.Add(numIgnoredJoins, 1)
 				s.numIgnoredJoins++
 				s.logger.Printf("node %s at %s already member of cluster, ignoring join request", id, addr)
@@ -2232,7 +2235,7 @@ func (s *Store) Join(jr *proto.JoinRequest) error {
 				return err
 			}
 			stats.Add(numRemovedBeforeJoins, 1)
-			s.logger.Printf("removed node %s prior to rejoin with changed ID or address", id)
+			s.logger.Printf("removed node %s prior to rejoin with changed ID, address or role", id)
 		}
 	}
 
